@@ -464,6 +464,17 @@ def main(argv):
     if b['fatal']:
         print('FATAL (the verification machinery itself does not build): ' + b['fatal'])
         return 2
+    if tier == 'thorough' and b['proof_ok']:
+        # independent re-check of the compiled theorems and everything they depend on, with the axiom list
+        mod = 'SimVerif.' + cfg['vfile'][:-2].replace('/', '.')
+        rc, out = sh(['coqchk', '-silent', '-o', '-Q', COQ, 'SimVerif', mod], timeout=3000)
+        ax = re.search(r'\* Axioms:\s*(.*?)\n\s*\n', out, re.S)
+        axioms = ax.group(1).strip() if ax else '?'
+        b['coqchk'] = 'coqchk -o %s: exit %d, axioms: %s' % (mod, rc, axioms)
+        log.append(b['coqchk'])
+        if rc != 0 or axioms != '<none>':
+            b['proof_ok'] = False
+            b['broken'].append(dict(kind='proof', file=cfg['vfile'], statement='coqchk', message=out[-600:]))
     for l in log:
         print(l)
     for br in b['broken']:
@@ -557,7 +568,7 @@ def write_evidence(prop, cfg, tier, seed, b, fam_results, wall, nviol):
         'ocaml/driver.ml (int<->Z conversion, line I/O)',
         'harness: scenario generators, builders, snapshot encoders, random.random patch (harness/*.py)',
         'modelled rather than verified: all Python code; the theorems are about coq/Model/*.v, tied to /repo by Tie/*.v and the lock-step correspondence',
-    ] + cfg.get('trusted_extra', [])
+    ] + ([b['coqchk']] if b.get('coqchk') else []) + cfg.get('trusted_extra', [])
     ev = dict(
         property_id=prop, tier=tier, seed=seed, level='proof',
         coverage=dict(
